@@ -122,7 +122,7 @@ func (r *Run) discharge(fr *FuncResult) []*OblResult {
 		if o.Cover {
 			// a cover is expected to be satisfiable; only a refutation (unsat) is a vacuity alarm
 			ct := 2 * time.Second
-			if os.Getenv("GOVC_WRITE_EXPECTED") != "" {
+			if os.Getenv("GOVC_WRITE_EXPECTED") != "" || os.Getenv("GOVC_LONGCOVER") != "" {
 				ct = 15 * time.Second // the reviewed list of unreachable return points is computed with a generous budget
 			}
 			v = runSolver(Solvers[0], destring(o.Query(false)), r.Dir, fileTag(o.Name), ct, r.Seed)
